@@ -23,3 +23,4 @@ import Memterm.Props.Extra
 #print axioms Memterm.Extra.alignment_display_spec
 #print axioms Memterm.Extra.bell_da_noop
 #print axioms Memterm.Extra.resize_keeps_tabstops
+#print axioms Memterm.Algebra.decaln_idempotent
